@@ -413,14 +413,31 @@ def api_check(strings):
         prev = "Q^3/x"
         x = q.Measurement(1.0, 0.1, unit=prev)
         arr = q.MeasurementArray([1.0, 2.0], 0.1, unit=prev)
+        xy = q.XYDataSet(xdata=[1.0, 2.0], ydata=[3.0, 4.0], xunit=prev, yunit=prev)
         q.define_unit("Zz", "kg*m")
-        before = (unit_sem(x), [unit_sem(e) for e in arr])
+
+        def state():
+            return (unit_sem(x), [unit_sem(e) for e in arr], [unit_sem(e) for e in xy.xdata],
+                    [unit_sem(e) for e in xy.ydata])
+
+        def all_same(elems):
+            us = {unit_sem(e) for e in elems}
+            return us.pop() if len(us) == 1 else ("elements differ", sorted(us))
+        before = state()
         entries = {
             "ctor": lambda: unit_sem(q.Measurement(1.0, 0.1, unit=s)),
             "setter": lambda: (setattr(x, "unit", s), unit_sem(x))[1],
-            "array-ctor": lambda: unit_sem(q.MeasurementArray([1.0, 2.0], 0.1, unit=s)[1]),
-            "array-setter": lambda: (setattr(arr, "unit", s), unit_sem(arr[0]))[1],
+            "array-ctor": lambda: all_same(q.MeasurementArray([1.0, 2.0], 0.1, unit=s)),
+            "array-setter": lambda: (setattr(arr, "unit", s), all_same(arr))[1],
             "define": lambda: (q.define_unit("Zz", s), ("ok", ()))[1],
+            # the other call forms that take a unit string
+            "repeated-ctor": lambda: unit_sem(q.Measurement([1.0, 1.5, 2.0], unit=s)),
+            "wrap-ctor": lambda: all_same(q.MeasurementArray(
+                [q.Measurement(1.0, 0.1), q.Measurement(2.0, 0.1, unit=prev)], unit=s)),
+            "xy-ctor-x": lambda: all_same(q.XYDataSet([1.0, 2.0], [3.0, 4.0], xunit=s).xdata),
+            "xy-ctor-y": lambda: all_same(q.XYDataSet(xdata=[1.0, 2.0], ydata=[3.0, 4.0], yunit=s).ydata),
+            "xy-xunit": lambda: (setattr(xy, "xunit", s), all_same(xy.xdata))[1],
+            "xy-yunit": lambda: (setattr(xy, "yunit", s), all_same(xy.ydata))[1],
         }
         for name, f in entries.items():
             acc, res = attempt(f)
@@ -434,7 +451,7 @@ def api_check(strings):
                 bad = "{} gives the string another meaning than parse_unit_string".format(name)
             elif not acc:
                 # the fault: nothing may have changed, and the next valid request must work
-                after = (unit_sem(x), [unit_sem(e) for e in arr])
+                after = state()
                 z = attempt(lambda: unit_sem(q.Measurement(1.0, 0.1, unit="Zz") /
                                              q.Measurement(1.0, 0.1, unit="kg")))
                 if after != before:
@@ -443,17 +460,20 @@ def api_check(strings):
                 elif z != (True, X.impl_parse("m")):
                     bad = "a rejected {} changed the unit definitions (Zz = kg*m reads {})".format(name, z)
                 else:
-                    ok2 = attempt(lambda: (setattr(x, "unit", prev), setattr(arr, "unit", prev))) if \
-                        name in ("setter", "array-setter") else (True, None)
+                    ok2 = attempt(lambda: (setattr(x, "unit", prev), setattr(arr, "unit", prev),
+                                           setattr(xy, "xunit", prev), setattr(xy, "yunit", prev))) if \
+                        name in ("setter", "array-setter", "xy-xunit", "xy-yunit") else (True, None)
                     if not ok2[0]:
                         bad = "after a rejected {} a valid assignment raises {}".format(name, ok2[1])
             if bad:
                 failures.append({"signature": "c12:api:{}:{}".format(name, shape(s)), "input": s,
                                  "oracle": "independent", "what": bad, "impl": [acc, str(res)],
                                  "expected": st, "entry": name})
-            if acc and name in ("setter", "array-setter"):
+            if acc and name in ("setter", "array-setter", "xy-xunit", "xy-yunit"):
                 x.unit = prev
                 arr.unit = prev
+                xy.xunit = prev
+                xy.yunit = prev
             if acc and name == "define":
                 q.define_unit("Zz", "kg*m")
     X.reset(q)
@@ -475,7 +495,8 @@ def api_check(strings):
 #   ["edit", h, "pop", key]       d.pop(key)
 #   ["edit", h, "clear"]          d.clear()
 #   ["read", h]                   look at the mapping / quantity / array / definition of step h
-ENTRIES = ["parse", "ctor", "setter", "array-ctor", "array-setter", "define"]
+ENTRIES = ["parse", "ctor", "setter", "array-ctor", "array-setter", "define", "repeated-ctor",
+           "wrap-ctor", "xy-ctor-x", "xy-ctor-y", "xy-xunit", "xy-yunit"]
 PROBE_SYM = "Zq"        # a symbol no generated string and no definition contains
 
 
@@ -538,7 +559,10 @@ def session_run(q, hist):
             return X.sem({k: X.fr(v) for k, v in obj.items()})
         if kind in ("ctor", "setter"):
             return stored(obj)
-        if kind in ("array-ctor", "array-setter"):
+        if kind in ("repeated-ctor",):
+            return stored(obj)
+        if kind in ("array-ctor", "array-setter", "wrap-ctor", "xy-ctor-x", "xy-ctor-y", "xy-xunit",
+                    "xy-yunit"):
             us = {stored(e) for e in obj}
             return us.pop() if len(us) == 1 else ("elements differ", sorted(us))
         # a definition: seen through a product with a symbol that no definition contains (the
@@ -566,6 +590,19 @@ def session_run(q, hist):
                         a = q.MeasurementArray([1.0, 2.0], 0.1, unit="Q^3/x")
                         a.unit = s
                         held[i] = ("array-setter", a)
+                    elif st[0] == "repeated-ctor":
+                        held[i] = (st[0], q.Measurement([1.0, 1.5, 2.0], unit=s))
+                    elif st[0] == "wrap-ctor":
+                        held[i] = (st[0], q.MeasurementArray(
+                            [q.Measurement(1.0, 0.1), q.Measurement(2.0, 0.1, unit="Q^3/x")], unit=s))
+                    elif st[0] in ("xy-ctor-x", "xy-ctor-y"):
+                        d = q.XYDataSet(xdata=[1.0, 2.0], ydata=[3.0, 4.0],
+                                        **{"xunit" if st[0][-1] == "x" else "yunit": s})
+                        held[i] = (st[0], list(d.xdata if st[0][-1] == "x" else d.ydata))
+                    elif st[0] in ("xy-xunit", "xy-yunit"):
+                        d = q.XYDataSet(xdata=[1.0, 2.0], ydata=[3.0, 4.0], xunit="Q^3/x", yunit="mol")
+                        setattr(d, st[0][3:], s)
+                        held[i] = (st[0], list(d.xdata if st[0] == "xy-xunit" else d.ydata))
                     else:
                         q.define_unit(_def_name(i), s)
                         held[i] = ("define", _def_name(i))
@@ -659,7 +696,10 @@ def _step_text(st):
     if st[0] in ENTRIES:
         return {"parse": "parse_unit_string({!r})", "ctor": "Measurement(unit={!r})",
                 "setter": "x.unit = {!r}", "array-ctor": "MeasurementArray(unit={!r})",
-                "array-setter": "array.unit = {!r}",
+                "array-setter": "array.unit = {!r}", "repeated-ctor": "Measurement([..], unit={!r})",
+                "wrap-ctor": "MeasurementArray([<measurements>], unit={!r})",
+                "xy-ctor-x": "XYDataSet(.., xunit={!r})", "xy-ctor-y": "XYDataSet(.., yunit={!r})",
+                "xy-xunit": "xy.xunit = {!r}", "xy-yunit": "xy.yunit = {!r}",
                 "define": "define_unit(name, {!r})"}[st[0]].format(st[1])
     if st[0] == "edit":
         if st[2] == "set":
